@@ -232,7 +232,12 @@ class Portfolio(IncrementalTrackingSolver):
     def _close_existing(self):
         _debug("Closing resources..")
         if self._ctrl_pipe :
-            self._ctrl_pipe.send("exit")
+            try:
+                self._ctrl_pipe.send("exit")
+            except OSError:
+                # Nobody is listening: the solvers of the previous
+                # query all failed
+                pass
             self._ctrl_pipe = None
         if self._ext_solver and self._ext_solver.is_alive():
             self._ext_solver.terminate()
